@@ -47,6 +47,13 @@ static void emit(bool same, const V &res, const Replay &rp) {
 static void dump_lwe(const LweSample *s, int n, V &r) { for (int i = 0; i < n; i++) r.push_back(s->a[i]); r.push_back(s->b); }
 static void dump_tlwe(const TLweSample *s, int k, int N, V &r) { for (int i = 0; i <= k; i++) for (int j = 0; j < N; j++) r.push_back(s->a[i].coefsT[j]); }
 
+// the parameter object of the LWE operations: its announced noise range is independent of the alpha passed to the encryption
+//   sel 0: [alpha, 1/4]   1: [4 alpha, 1/4] (request below the announced minimum)   2: [0, alpha/4] (request above the announced maximum)
+//   3: the in/out parameters of the default 128-bit gate set [2^-15, 0.012467]   4: [64 alpha, 1/4]
+static LweParams *mk_lwe_params(int n, double alpha, ll sel) {
+    switch (sel) { case 1: return new_LweParams(n, 4 * alpha, 0.25); case 2: return new_LweParams(n, 0., alpha / 4); case 3: return new_LweParams(n, ldexp(1., -15), 0.012467);
+                   case 4: return new_LweParams(n, 64 * alpha, 0.25); default: return new_LweParams(n, alpha, 0.25); }
+}
 int main() {
     std::string line;
     while (std::getline(std::cin, line)) {
@@ -67,7 +74,7 @@ int main() {
             lweKeyGen(k); for (int i = 0; i < n; i++) res.push_back(k->key[i]);
             rp.B(n); delete_LweKey(k); delete_LweParams(lp);
         } else if (opc == 1 || opc == 2) {
-            int n = v[0]; LweParams *lp = new_LweParams(n, alpha, 0.25); LweKey *k = new_LweKey(lp); LweSample *c = new_LweSample(lp);
+            int n = v[0]; LweParams *lp = mk_lwe_params(n, alpha, a[4]); LweKey *k = new_LweKey(lp); LweSample *c = new_LweSample(lp);
             for (int i = 0; i < n; i++) k->key[i] = (int32_t) v[1 + i];
             if (opc == 1) lweSymEncrypt(c, (int32_t) v[1 + n], alpha, k);
             else {   // through the gate API: a key-set shell around the LWE key
@@ -82,7 +89,7 @@ int main() {
             rp.G(1, alpha); rp.U(n);
             delete_LweSample(c); delete_LweKey(k); delete_LweParams(lp);
         } else if (opc == 14) {   // lweSymEncryptWithExternalNoise: n key message noise_num noise_exp
-            int n = v[0]; LweParams *lp = new_LweParams(n, alpha, 0.25); LweKey *k = new_LweKey(lp); LweSample *c = new_LweSample(lp);
+            int n = v[0]; LweParams *lp = mk_lwe_params(n, alpha, a[4]); LweKey *k = new_LweKey(lp); LweSample *c = new_LweSample(lp);
             for (int i = 0; i < n; i++) k->key[i] = (int32_t) v[1 + i];
             lweSymEncryptWithExternalNoise(c, (int32_t) v[1 + n], ldexp((double) v[2 + n], -(int) v[3 + n]), alpha, k);
             dump_lwe(c, n, res); rp.U(n);
